@@ -330,6 +330,7 @@ class App:
         """Fresh rows for every resource type; returns ids."""
         from mistral.lang import parser as spec_parser
         db_api = self.db_api
+        self.clean_hash = None
         self.wipe()
         spec_parser.clear_caches()
         self.in_hook += 1
@@ -441,6 +442,15 @@ class App:
             return ids
         finally:
             self.in_hook -= 1
+
+    def ensure_seed(self, **kw):
+        """the standard rows in the asked states, re-created only if an earlier request changed them"""
+        want = json.dumps(kw, sort_keys=True)
+        if getattr(self, 'clean_hash', None) is None or self.seeded_as != want or self.db_hash() != self.clean_hash:
+            self.seed(**kw)
+            self.seeded_as = want
+            self.clean_hash = self.db_hash()
+        return self.ids
 
     # -- one request ----------------------------------------------------------------
     def request(self, req):
@@ -854,11 +864,8 @@ def suite_enumerate(ctx, app, table):
 def run_scenario(app, req, policy, names=(), auth=False, admin=False, reseed=True, seed_kw=None):
     """One request on the standard rows. The rows are re-created only when an earlier request changed
     them (or other rows are asked for): refused requests and reads leave them as they are."""
-    want = json.dumps(seed_kw or {}, sort_keys=True)
-    if reseed and (getattr(app, 'clean_hash', None) is None or app.seeded_as != want or app.db_hash() != app.clean_hash):
-        app.seed(**(seed_kw or {}))
-        app.seeded_as = want
-        app.clean_hash = app.db_hash()
+    if reseed:
+        app.ensure_seed(**(seed_kw or {}))
     app.set_policy(policy, names)
     app.set_auth(auth)
     app.set_admin(admin)
@@ -877,7 +884,7 @@ def run_scenario(app, req, policy, names=(), auth=False, admin=False, reseed=Tru
 def suite_handle_and_oracle(ctx, app, table, live):
     """Every method x policy scenario x present/absent: model vs real, trace vs table, and the oracle."""
     methods = table['methods']
-    ids = app.seed()
+    ids = app.ensure_seed()
     cases = []   # (midx, key, req, scenario dict, expected model inputs)
     missing = []
     for idx, m in enumerate(methods):
@@ -991,7 +998,7 @@ def suite_sequences(ctx, app, table):
     Model side: fold_left serve over the same rows and environments returns the initial database."""
     rng = ctx.rng
     methods = table['methods']
-    ids = app.seed()
+    ids = app.ensure_seed()
     pool = []
     for idx, m in enumerate(methods):
         key = method_key(m)
@@ -1063,7 +1070,7 @@ def suite_default_policy_oracle(ctx, app, table):
     """Default registry policy, non-admin caller: cross-project listing and scope=public are refused.
     Independent of the table: every live get_all is asked with all_projects=true and with
     project_id=<another project that owns private rows>, every POST/PUT with scope=public."""
-    ids = app.seed()
+    ids = app.ensure_seed()
     n = 0
     for m in table['methods']:
         key = method_key(m)
@@ -1171,7 +1178,7 @@ def suite_exec_put(ctx, app, only=None):
     for (st, desc, env, present) in combos:
         # the current state matters only for an env update without a state: all current states there,
         # two random ones elsewhere (all of them in the thorough tier)
-        if ctx.thorough() or (env and not st and present):
+        if (ctx.thorough() and st in STATE_TEXTS + [None]) or (env and not st and present):
             curs = cur_states
         else:
             curs = rng.sample(cur_states, 2 if present else 1)
@@ -1186,7 +1193,7 @@ def suite_exec_put(ctx, app, only=None):
     tname = exec_table(app)
     for (st, desc, env, present, cur), r in zip(cases, res):
         model = parse_outcome(r) if r is not None else None
-        ids = app.seed(wf_state=cur)
+        ids = app.ensure_seed(wf_state=cur)
         rid = ids['wf_ex'] if present else ABSENT
         body = {}
         if st is not None:
@@ -1269,7 +1276,7 @@ def judge_exec_delete(ctx, case, cur, force, status, gone):
 
 
 def one_exec_delete(app, cur, force, present):
-    ids = app.seed(wf_state=cur)
+    ids = app.ensure_seed(wf_state=cur)
     rid = ids['wf_ex'] if present else ABSENT
     url = '/v2/executions/%s' % rid + ('' if force is None else '?force=%s' % force)
     app.set_policy('allow_all')
@@ -1335,7 +1342,7 @@ def suite_task_put(ctx, app, only=None):
         res = core.coq_eval('c16taskput', IMPORTS, exprs)
     for (st, cur, reset, wi, present, name, wfname), r in zip(combos, res):
         model = parse_outcome(r) if r is not None else None
-        ids = app.seed(task_state=cur, with_items=wi)
+        ids = app.ensure_seed(task_state=cur, with_items=wi)
         rid = ids['task_ex'] if present else ABSENT
         body = {}
         if st is not None:
@@ -1394,7 +1401,7 @@ def suite_action_put(ctx, app, only=None):
         res = core.coq_eval('c16actput', IMPORTS, exprs)
     for (st, output, present), r in zip(cases, res):
         model = parse_outcome(r) if r is not None else None
-        ids = app.seed()
+        ids = app.ensure_seed()
         rid = ids['action_ex'] if present else ABSENT
         body = {}
         if st is not None:
@@ -1449,7 +1456,7 @@ def suite_action_delete(ctx, app, only=None):
     tname = next(t.name for t in app.tables() if t.name.startswith('action_executions'))
     for (cur, cfgflag, which), r in zip(cases, res):
         model = parse_outcome(r) if r is not None else None
-        ids = app.seed(action_state=cur, adhoc_state=cur)
+        ids = app.ensure_seed(action_state=cur, adhoc_state=cur)
         rid = {'adhoc': ids['ad_hoc_action_ex'], 'task': ids['action_ex'], 'absent': ABSENT}[which]
         app.cfg.CONF.set_override('allow_action_execution_deletion', cfgflag, group='api')
         app.set_policy('allow_all')
@@ -1481,7 +1488,7 @@ def observations(ctx, app, table):
                        % (method_key(m), first_enforce(m)))
     obs.append('rule services:list is registered but no controller enforces it')
     obs.append('PUT /v2/executions/<id> {"state": "SKIPPED"} is accepted and forwarded as stop_workflow(id, "SKIPPED"): '
-               'states.is_completed counts SKIPPED; Workflow.stop ignores it (no state change)')
+               'states.is_completed counts SKIPPED; mistral/engine/workflows.py Workflow.stop has no branch for it (read, not executed here: the engine is outside C16)')
     ctx.cov['observations'] = obs
 
 
